@@ -15,6 +15,13 @@ MutOf(c) == IF c.lab.fam = "one" /\ c.lab.t \in MutTerms(c.lab.g)
 Mut == UNION {MutOf(c) : c \in Vals}
 IdVariants(id) == {id \o "x", "https://other.example.net/" \o "o/1", id \o "?page=2"}      \* path, host, query
 BaseVals == {BaseV(g, 5) : g \in ObjectGoTypes} \cup {Embedded(g, 6) : g \in ObjectGoTypes}
+\* ids that differ only in the values of a repeated query parameter
+QueryPairs == UNION {{Pr(With(v, "id", Str(v.p.id.s \o "?tag=a&tag=a")), With(v, "id", Str(v.p.id.s \o "?tag=a&tag=b"))),
+                      Pr(With(v, "id", Str(v.p.id.s \o "?tag=a&tag=b")), With(v, "id", Str(v.p.id.s \o "?tag=a&tag=a")))} : v \in BaseVals}
+\* reflexivity also for unusual values: repeated language tags, untagged duplicates
+Odd == {With(BaseV(g, 8), t, Nlv(e)) : g \in {"Object", "Actor", "Activity"}, t \in {"name", "summary", "content"},
+                                       e \in {<<LR("en", "a"), LR("en", "b")>>, <<LR(NilTag, "a"), LR(NilTag, "b")>>, <<LR("en", "a"), LR("fr", "b"), LR("en", "c")>>}}
+OddRefl == {Pr(v, v) : v \in Odd}
 IdDiff == UNION {UNION {{Pr(v, With(v, "id", Str(i2))), Pr(With(v, "id", Str(i2)), v)} : i2 \in IdVariants(v.p.id.s)} : v \in BaseVals}
 OtherType(g) == CASE g = "Object" -> {"Article", "Video"} [] g = "Actor" -> {"Group", "Service"} [] g = "Activity" -> {"Like", "Delete"}
                   [] g = "IntransitiveActivity" -> {"Travel"} [] OTHER -> {}
@@ -22,7 +29,7 @@ TypeDiff == UNION {UNION {{Pr(v, With(v, "type", Str(t2))), Pr(With(v, "type", S
 NilLikes == {NilItem, Iri(""), Iri("-"), [k |-> "nil", as |-> "Object"], [k |-> "nil", as |-> "Activity"], [k |-> "list", e |-> <<>>, nilslice |-> TRUE]}
 NonNils == {I1, Note1, Person1, Untyped, Link1, ListOf(<<I1>>), BaseV("Activity", 5), BaseV("Collection", 5)}
 NilFam == {Pr(a, b) : a \in NilLikes, b \in NilLikes} \cup {Pr(a, b) : a \in NilLikes, b \in NonNils} \cup {Pr(b, a) : a \in NilLikes, b \in NonNils}
-AllPairs == Refl \cup Mut \cup IdDiff \cup TypeDiff \cup NilFam
+AllPairs == Refl \cup OddRefl \cup QueryPairs \cup Mut \cup IdDiff \cup TypeDiff \cup NilFam
 GenInit == x = NilItem /\ y = NilItem /\ res = FALSE /\ phase = "gen"
 GenNext == FALSE /\ UNCHANGED vars
 ASSUME ndJsonSerialize("c09_pairs.ndjson", SetToSeq(AllPairs))
